@@ -456,9 +456,18 @@ func (d *Decoder) decodeSet(mem MemCache, msg *Message) error {
 		} else {
 			// Data set
 			var data []DecodedField
+			recordStart := d.reader.ReadCount()
 			data, err = d.decodeData(tr)
 			if err == nil {
-				msg.DataSets = append(msg.DataSets, data)
+				if d.reader.ReadCount() == recordStart {
+					// a record that occupies no octets would be decoded forever
+					err = nonfatalError{fmt.Errorf("%s netflow template id# %d describes an empty data record",
+						d.raddr.String(),
+						setHeader.FlowSetID,
+					)}
+				} else {
+					msg.DataSets = append(msg.DataSets, data)
+				}
 			}
 		}
 	}
